@@ -81,7 +81,8 @@ def write_tree(top, case):
         h = fits.Header()
         h['COEFF0'] = o['c0']
         h['COEFF1'] = o['c1']
-        pm = np.zeros(nf, dtype=[('FIBERID', 'i4'), ('PLATE', 'i4'), ('MJD', 'i4'), ('RA', 'f8')])
+        pm = np.zeros(nf, dtype=[('FIBERID', 'i4'), ('PLATE', 'i4'), ('MJD', 'i4'), ('RA', 'f8'), ('MAG', 'f4', (5,))])
+        pm['MAG'] = (val(plate, mjd, 5, np.arange(nf) + 1, 0)[:, None] % 100) + np.arange(5)[None, :]
         pm['FIBERID'] = np.arange(nf) + 1
         pm['PLATE'] = plate
         pm['MJD'] = mjd
@@ -89,7 +90,8 @@ def write_tree(top, case):
         hd = [fits.PrimaryHDU(img(0), header=h), fits.ImageHDU(img(1)), fits.ImageHDU((F * 100 + P + plate).astype('i4')),
               fits.ImageHDU((F * 100 + P + mjd).astype('i4')), fits.ImageHDU(img(4)), fits.BinTableHDU(pm), fits.ImageHDU(img(6))]
         fits.HDUList(hd).writeto(os.path.join(d, 'spPlate-%04d-%05d.fits' % (plate, mjd)))
-        z = np.zeros(nf, dtype=[('FIBERID', 'i4'), ('Z', 'f8'), ('PLATE', 'i4'), ('MJD', 'i4')])
+        z = np.zeros(nf, dtype=[('FIBERID', 'i4'), ('Z', 'f8'), ('PLATE', 'i4'), ('MJD', 'i4'), ('THETA', 'f8', (4,))])
+        z['THETA'] = val(plate, mjd, 7, np.arange(nf) + 1, 0)[:, None] + 0.25 * np.arange(4)[None, :]
         z['FIBERID'] = np.arange(nf) + 1
         z['Z'] = val(plate, mjd, 7, np.arange(nf) + 1, 0)
         z['PLATE'] = plate
@@ -164,6 +166,12 @@ def tree_body(case):
             check(pmrow == (f, plate, mjd) and float(r['plugmap']['RA'][i]) == val(plate, mjd, 5, f, 0), 'readspec:plugmap-row-is-not-request', lambda: dict(row=i, got=pmrow, want=(f, plate, mjd)))
             zrow = (int(r['zans']['FIBERID'][i]), int(r['zans']['PLATE'][i]), int(r['zans']['MJD'][i]))
             check(zrow == (f, plate, mjd) and float(r['zans']['Z'][i]) == val(plate, mjd, 7, f, 0), 'readspec:zans-row-is-not-request', lambda: dict(row=i, got=zrow, want=(f, plate, mjd)))
+            th = np.asarray(r['zans']['THETA'])
+            check(th.shape == (nreq, 4) and np.array_equal(th[i], val(plate, mjd, 7, f, 0) + 0.25 * np.arange(4)), 'readspec:zans-vector-column-wrong',
+                  lambda: dict(row=i, shape=th.shape))
+            mg = np.asarray(r['plugmap']['MAG'])
+            check(mg.shape == (nreq, 5) and np.array_equal(mg[i], (val(plate, mjd, 5, f, 0) % 100 + np.arange(5)).astype('f4')), 'readspec:plugmap-vector-column-wrong',
+                  lambda: dict(row=i, shape=mg.shape))
             if case['photo']:
                 check('tsobj' in r and int(r['tsobj']['FIBERID'][i]) == f and float(r['tsobj']['OBJC'][i]) == val(plate, mjd, 8, f, 0), 'readspec:tsobj-row-is-not-request')
     groups = [g for g, f in req]
